@@ -10,9 +10,11 @@
         sharing and cycles (baseObject.export / arrayObject.export);
      D. the element-wrapper cache of objectGoArrayReflect / objectGoSliceReflect (valueCache,
         copy-on-change: a handed-out wrapper is Live at an index or Detached with a private copy).
+     E. the wrappers of a nested struct field of an element (objectGoReflect.valueCache), as repaired for
+        C13-F20: a cached field wrapper follows its owner.
    What is NOT modelled: reflect's addressability/CanSet rules, panics of reflect, method sets, named
-   scalar types, the per-field valueCache of objectGoReflect for NESTED struct/array fields (on the
-   current tree that cache is not re-pointed when its owner moves or is detached: finding C13-F20). *)
+   scalar types; the recursion of setReflectValue over cached nested wrappers is abstracted (a field
+   wrapper is a reference to its owner). *)
 From Coq Require Import List ZArith NArith Bool Arith Lia.
 Import ListNotations.
 
@@ -395,6 +397,28 @@ Record est := mkEst { e_cache : list (option gres);   (* objectExportCtx.cache, 
 Definition cache_get (st : est) (id : nat) : option gres :=
   match nth_error (e_cache st) id with Some r => r | None => None end.
 
+(* export the members one after the other, threading the context *)
+Definition exp_fields (ev : est -> jv -> option (est * gres)) :=
+  fix go (l : list (N * jv)) (s : est) : option (est * list (N * gres)) :=
+    match l with
+    | [] => Some (s, [])
+    | (k, x) :: r =>
+        match ev s x with
+        | None => None
+        | Some (s1, rx) =>
+            match go r s1 with
+            | None => None
+            | Some (s2, rr) => Some (s2, (k, rx) :: rr)
+            end
+        end
+    end.
+
+Definition node_res (nd : node) (a : addr) : gres := match nd with NObj _ => RMap a | NArr _ => RSlice a end.
+Definition node_fields (nd : node) : list (N * jv) :=
+  match nd with NObj fs => fs | NArr items => map (fun x => (0%N, x)) items end.
+Definition node_cell (nd : node) (kvs : list (N * gres)) : gcell :=
+  match nd with NObj _ => GCMap kvs | NArr _ => GCSlice (map snd kvs) end.
+
 (* baseObject.export / arrayObject.export: look in the cache; otherwise allocate the result, PUT IT
    IN THE CACHE FIRST, then export the members *)
 Fixpoint exp_val (fuel : nat) (g : graph) (st : est) (v : jv) : option (est * gres) :=
@@ -409,45 +433,13 @@ Fixpoint exp_val (fuel : nat) (g : graph) (st : est) (v : jv) : option (est * gr
           | S f =>
               match nth_error g id with
               | None => None
-              | Some (NObj fields) =>
+              | Some nd =>
                   let a := length (e_heap st) in
-                  let st1 := mkEst (upd (e_cache st) id (Some (RMap a))) (e_heap st ++ [GCMap []]) in
-                  match (fix go (l : list (N * jv)) (s : est) : option (est * list (N * gres)) :=
-                           match l with
-                           | [] => Some (s, [])
-                           | (k, x) :: r =>
-                               match exp_val f g s x with
-                               | None => None
-                               | Some (s1, rx) =>
-                                   match go r s1 with
-                                   | None => None
-                                   | Some (s2, rr) => Some (s2, (k, rx) :: rr)
-                                   end
-                               end
-                           end) fields st1 with
+                  let st1 := mkEst (upd (e_cache st) id (Some (node_res nd a))) (e_heap st ++ [node_cell nd []]) in
+                  match exp_fields (exp_val f g) (node_fields nd) st1 with
                   | None => None
                   | Some (s2, kvs) =>
-                      Some (mkEst (e_cache s2) (upd (e_heap s2) a (GCMap kvs)), RMap a)
-                  end
-              | Some (NArr items) =>
-                  let a := length (e_heap st) in
-                  let st1 := mkEst (upd (e_cache st) id (Some (RSlice a))) (e_heap st ++ [GCSlice []]) in
-                  match (fix go (l : list jv) (s : est) : option (est * list gres) :=
-                           match l with
-                           | [] => Some (s, [])
-                           | x :: r =>
-                               match exp_val f g s x with
-                               | None => None
-                               | Some (s1, rx) =>
-                                   match go r s1 with
-                                   | None => None
-                                   | Some (s2, rr) => Some (s2, rx :: rr)
-                                   end
-                               end
-                           end) items st1 with
-                  | None => None
-                  | Some (s2, es) =>
-                      Some (mkEst (e_cache s2) (upd (e_heap s2) a (GCSlice es)), RSlice a)
+                      Some (mkEst (e_cache s2) (upd (e_heap s2) a (node_cell nd kvs)), node_res nd a)
                   end
               end
           end
